@@ -168,7 +168,7 @@ def judge(diff, old, make_copy, acc, witness, tag, weird_names=False):
       code = module.code
     except Exception as e:  # pylint: disable=broad-except
       why = 'positional-argument-in-new-value' if has_int_keyed_buildable(diff) else 'other'
-      if weird_names and why == 'other':
+      if weird_names and (why == 'other' or type(e).__name__ == 'CSTValidationError'):
         acc.violation(WEIRD_KEY, f'fiddler_from_diff raised {e!r}'[:300], witness(mode=mode))
         continue
       acc.violation(f'fiddler_from_diff-raises:{type(e).__name__}:{why}',
